@@ -265,8 +265,12 @@ fn run_case(t: &mut Tape, ctx: &mut Ctx) -> Result<CaseOutcome, HarnessError> {
             if let Out::Panic { msg, loc } = &out {
                 o.failures.push(mk(Failure::new("panic", format!("panic {msg} at {loc}\n{}", c.src)).key("panic", super::common::norm_panic(msg)), &job));
             }
-            if matches!(out, Out::CompileError { .. }) {
+            if let Out::CompileError { class, text } = &out {
                 o.inconclusive = true;
+                o.classes.push(format!("generator_rejected:{class}"));
+                if std::env::var("XV_DEBUG_C10").is_ok() {
+                    eprintln!("REJECTED {class}: {} <= {}", text.lines().last().unwrap_or("").chars().take(200).collect::<String>(), c.src.replace('\n', " "));
+                }
             } else {
                 // a terminating run over an unbounded source: the limits did their job
                 o.nontrivial = c.infinite;
@@ -330,20 +334,20 @@ fn run_time_case(t: &mut Tape, ctx: &mut Ctx) -> Result<CaseOutcome, HarnessErro
                 Step::Compile { src: 0 },
                 Step::Instantiate,
                 Step::RunQuiet { name: "c0".into() },
-                Step::HostSleepMs { ms: 120 },
+                Step::HostSleepMs { ms: 400 },
                 Step::RunQuiet { name: "c1".into() },
             ];
-            job.limits.time_ms = Some(60);
+            job.limits.time_ms = Some(150);
         }
         _ => {
             job.steps = vec![
                 Step::Compile { src: 0 },
                 Step::Instantiate,
-                Step::HostSleepMs { ms: 120 },
+                Step::HostSleepMs { ms: 400 },
                 Step::ResetTimeout,
                 Step::RunQuiet { name: "c1".into() },
             ];
-            job.limits.time_ms = Some(60);
+            job.limits.time_ms = Some(150);
         }
     }
     // the other limits may be configured at the same time (the deadline check must not depend on it)
@@ -362,7 +366,21 @@ fn run_time_case(t: &mut Tape, ctx: &mut Ctx) -> Result<CaseOutcome, HarnessErro
     }
     o.key = fnv(format!("{src}{variant}{others}").as_bytes());
     o.classes.push(format!("time_other_limits:{}", if others == 0 { "none" } else { "some" }));
-    let r = ctx.exec(&job)?;
+    let mut r = ctx.exec(&job)?;
+    // the clock is real: a result that looks wrong is confirmed by a second run before it counts
+    let looks_wrong = |r: &Reply| -> bool {
+        let lines = r.output.lines().count();
+        let timeout = |i: usize| matches!(r.step(i), Out::Violation { v } if v == "Timeout");
+        match variant {
+            0 => !timeout(2) || lines != 0,
+            1 => !timeout(4) || lines > 2,
+            _ => !matches!(r.step(4), Out::Done) || lines != n as usize,
+        }
+    };
+    if end_failure(&r).is_none() && looks_wrong(&r) {
+        r = ctx.exec(&job)?;
+        o.evals += 1;
+    }
     let mk = |kind: &str, msg: String| {
         Failure::new(kind, format!("{msg}\n{src}  limits: {:?}\n  output: {:?}", job.limits, r.output))
             .key("variant", ["zero", "elapsed_then_call", "reset"][variant])
@@ -385,7 +403,7 @@ fn run_time_case(t: &mut Tape, ctx: &mut Ctx) -> Result<CaseOutcome, HarnessErro
             if !timeout(4) || lines.len() > 2 {
                 o.failures.push(mk(
                     "call_after_deadline",
-                    format!("after the 60 ms limit elapsed (120 ms sleep) c1 ended in {} and {} bodies began in total (2 belong to c0)", brief(r.step(4)), lines.len()),
+                    format!("after the 150 ms limit elapsed (400 ms sleep) c1 ended in {} and {} bodies began in total (2 belong to c0)", brief(r.step(4)), lines.len()),
                 ));
             }
         }
@@ -404,7 +422,7 @@ impl Property for C10 {
         "C10"
     }
     fn rule(&self) -> String {
-        "work: an expression over an unbounded or astronomically large source - 18 generator sources (count, successors, successors_until that never stops, repeat incl. of an empty stream, chains with the infinite part first / last / in the middle, products and zips of infinite streams, huge ranges) x 0-2 of 20 stages (never-firing filters and skip_until with user AND native predicates, windows / chunks of size 0 and 10^12, groups that never close, distinct over a constant, huge skip / take / repeat, flatten) x 18 consumers; 45 sequence-level expressions over infinite / huge sequences (len, sum, to_array, ==, cmp, to_str, hash, reverse, sort, max, contains, searches, set / mapping bulk updates, string repetition, split / replace with empty needle, permutations, combinations, JSON, statistics); 16 numeric builtins with arguments up to 2^64 (digits with bases -1, 0, 1, binom, multinom, factorial, pow, range, format precision / width, roots, lcm, permutation) - under finite search and call limits (family A) and also a size limit (family B). Oracle: the evaluation ends (value, error or violation) within 4 s of CPU time and 4 GiB; an overrun is re-run with twice the budget before it is reported. time: with time_limit 0, or 60 ms followed by a real 120 ms pause, no user function body begins (bodies are observed through display) and the outcome is Timeout; reset_timeout from the host restores the budget. Non-trivial = the source is unbounded and the run ended within the budget.".into()
+        "work: an expression over an unbounded or astronomically large source - 18 generator sources (count, successors, successors_until that never stops, repeat incl. of an empty stream, chains with the infinite part first / last / in the middle, products and zips of infinite streams, huge ranges) x 0-2 of 20 stages (never-firing filters and skip_until with user AND native predicates, windows / chunks of size 0 and 10^12, groups that never close, distinct over a constant, huge skip / take / repeat, flatten) x 18 consumers; 45 sequence-level expressions over infinite / huge sequences (len, sum, to_array, ==, cmp, to_str, hash, reverse, sort, max, contains, searches, set / mapping bulk updates, string repetition, split / replace with empty needle, permutations, combinations, JSON, statistics); 16 numeric builtins with arguments up to 2^64 (digits with bases -1, 0, 1, binom, multinom, factorial, pow, range, format precision / width, roots, lcm, permutation) - under finite search and call limits (family A) and also a size limit (family B). Oracle: the evaluation ends (value, error or violation) within 4 s of CPU time and 4 GiB; an overrun is re-run with twice the budget before it is reported. time: with time_limit 0, or 150 ms followed by a real 400 ms pause, no user function body begins (bodies are observed through display) and the outcome is Timeout; reset_timeout from the host restores the budget. Non-trivial = the source is unbounded and the run ended within the budget.".into()
     }
     fn assumptions(&self) -> Vec<String> {
         vec![
